@@ -171,3 +171,6 @@ func hangTimeout() time.Duration {
 	}
 	return 60 * time.Second
 }
+
+// async30 returns a context that times out after 30 s.
+func async30() async.Context { return async.TimeoutContext(30 * time.Second) }
